@@ -301,6 +301,16 @@ def _top_graph_value_map(graph: ir.Graph) -> Dict[str, ir.Value]:
     return ir.convenience.create_value_mapping(graph, include_subgraphs=False)
 
 
+def _visible_value_map(graph: ir.Graph) -> Dict[str, ir.Value]:
+    """Return named values of the top graph and of every nested body.
+
+    Names live in one scope chain: a top-level value called like a value inside
+    a Loop/If/Scan body breaks single assignment for that body.
+    """
+
+    return ir.convenience.create_value_mapping(graph, include_subgraphs=True)
+
+
 def _unique_values(values: Sequence[ir.Value]) -> List[ir.Value]:
     unique: List[ir.Value] = []
     seen: set[int] = set()
@@ -391,7 +401,7 @@ def _apply_custom_io_names_on_ir(
 
     renamed_ids = set(target_by_value.keys())
     occupied_by_other: set[str] = set()
-    for value in _top_graph_value_map(graph).values():
+    for value in _visible_value_map(graph).values():
         name = getattr(value, "name", None)
         if not name:
             continue
